@@ -442,10 +442,11 @@ def run(ctx):
         evaluations=len(lines),
         distinct_nontrivial=len(nontrivial),
         rule='a case is (tree with contents, argument vector, stdin); non-trivial = at least one planned file is changed by the '
-             'library or fails to minify, and the run was accepted. Generators leave out, as narrow known-defect constructs kept '
-             'as pinned witnesses: (1) a file written onto itself while <name>.bak already exists, (2) a destination that is the '
-             'same file as its source under a different spelling (hard link, link target, directory link). Scenarios whose '
-             'outcome the README does not determine (Plan.unspec/hazard) are never run.',
+             'library or fails to minify, and the run was accepted. Generators leave out one narrow known-defect construct (known/C20.txt): '
+             'the backup name <src>.bak of a file written onto itself is a source or destination of another task of the same run '
+             '(race between the workers). The constructs fixed by bdbfbd6/282e2ab/ec8cfb8/f8787e2 are generated again and their '
+             'former witnesses run as ordinary scenarios. Scenarios whose outcome the README does not determine '
+             '(Plan.unspec/hazard) are never run.',
         samples=samples,
         scenarios_from_generator=sum(1 for x in scs if x['origin'] == 'gen'),
         scenarios_from_driver=sum(1 for x in scs if x['origin'] == 'driver'),
